@@ -147,5 +147,8 @@ def run(repo, check):
     share(check, repo, _c08.rule_r5, 'C03.R11', 'an encoder that compiles templates never writes a message with the template of another table version (shared with C08.R5)')
     from sa.rules import c02 as _c02b
     share(check, repo, _c02b.rule_roundtrip, 'C03.R12', 'decode then encode on concrete templates gives back the fields that were read (shared with C02.R15)', args=('C03.R12',))
+    from sa.rules import c01 as _c01b
+    share(check, repo, _c01b.rule_reference, 'C03.R13', 'the width, scale and reference under which a value is quantised and range-checked are the ones FM-94 dictates for the '
+          'operators in force (independent reading; shared with C01.R14): with R12 this holds for the writing side too', args=('C03.R13',))
     check.assumptions = ['range refusal itself is bitstring\'s: a value handed to it unchanged that does not fit the field raises (trusted base)',
                          'the half-unit quantisation bound and the byte-identity of repeated round trips are runtime facts and are not decided']
